@@ -42,6 +42,14 @@ def main():
     os.environ[common.GUARD] = "1"
     sys.path.insert(0, str(common.REPO / "src"))
     _fault()
+    # every temporary file of the check, of its workers and of gcc/clang goes under /verif/.scratch/tmp/<pid> and is
+    # removed when the check exits (nothing is left, or needed, under /tmp)
+    import atexit, shutil, tempfile
+    tmpd = os.path.join(str(common.SCRATCH), "tmp", "%s-%d" % (a.pid, os.getpid()))
+    os.makedirs(tmpd, exist_ok=True)
+    os.environ["TMPDIR"] = tmpd
+    tempfile.tempdir = None
+    atexit.register(shutil.rmtree, tmpd, True)
     ck = common.Check(a.pid, tier, seed)
     try:
         mod = importlib.import_module("props." + a.pid)
